@@ -678,10 +678,29 @@ def _local_tables(m: Func, tables) -> Dict[str, str]:
     return out
 
 
+def _dict_attrs(reg: Class) -> Tuple[str, ...]:
+    """the lookup tables of the registry: the attributes its constructor binds to a dictionary (type table, reference table)"""
+    init = reg.methods.get("__init__")
+    out: List[str] = []
+    for n in (init.own_nodes() if init is not None else []):
+        if isinstance(n, (ast.Assign, ast.AnnAssign)) and n.value is not None:
+            t = n.targets[0] if isinstance(n, ast.Assign) else n.target
+            if isinstance(t, ast.Attribute) and isinstance(t.value, ast.Name) and t.value.id == "self":
+                v = n.value
+                ann = unparse(n.annotation) if isinstance(n, ast.AnnAssign) else ""
+                is_dict = isinstance(v, (ast.Dict, ast.DictComp)) or (isinstance(v, ast.Call) and unparse(v.func).split(".")[-1] in ("dict", "OrderedDict")) or ann.startswith(("Dict", "dict", "typing.Dict", "OrderedDict"))
+                if isinstance(v, ast.Name):
+                    is_dict = is_dict or any(isinstance(x, (ast.Assign, ast.AnnAssign)) and isinstance(getattr(x, "value", None), (ast.Dict, ast.DictComp)) and any(
+                        isinstance(tt, ast.Name) and tt.id == v.id for tt in (x.targets if isinstance(x, ast.Assign) else [x.target])) for x in init.own_nodes())
+                if is_dict and t.attr not in out:
+                    out.append(t.attr)
+    return tuple(out)
+
+
 def _table_stores(ctx: Ctx, reg: Class, m: Func, guards: List[str], depth: int) -> List[Tuple[str, str, str]]:
     """(table attribute, 'unconditional' | 'guarded', where) for stores self.<table>[...] = codec reachable from m"""
     out: List[Tuple[str, str, str]] = []
-    tables = ("_handled_types", "_protocols")
+    tables = _dict_attrs(reg)
     # a local dictionary that becomes the table (`protocols = {}; ...; self._protocols = protocols`)
     local_tables = _local_tables(m, tables)
     for n in m.own_nodes():
